@@ -626,6 +626,6 @@ package op
 //@   ensures fail-closed: err != nil ==> result0 == nil
 //@   ensures redirect-only-validated: err == nil ==> callres("op.ValidateEndSessionRequest", 1) == nil
 //@   ensures default-target: err == nil && !implements(s.provider.Storage(), "CanTerminateSessionFromRequest")
-//@        ==> result0 != nil && result0.URL == callres("op.ValidateEndSessionRequest", 0).RedirectURI
+//@        ==> result0 != nil && result0.URL == callres("op.ValidateEndSessionRequest", 0).RedirectURI && callres("op.AuthStorage.TerminateSession", 0) == nil
 //@        && callarg("op.AuthStorage.TerminateSession", 1) == callres("op.ValidateEndSessionRequest", 0).UserID
 //@        && callarg("op.AuthStorage.TerminateSession", 2) == callres("op.ValidateEndSessionRequest", 0).ClientID
